@@ -3,8 +3,10 @@
 Decided statically: every canonical mutation in the engine invalidates the query cache on all paths; the invalidation
 generation is bumped before entries are removed; a result is stored only under the cache lock after re-checking the
 generation taken before the search; hits require requested_k ≥ k and an equal scope; the scope covers tenant, namespace
-and filter; the reverse index is maintained with every entry.  The numeric soundness of the insert pruning bound and the
-race itself (only its guard) are not decided.
+and filter; the reverse index is maintained with every entry; a degraded (partial) answer of the timed search is never stored
+(R7); an entry with fewer results than requested never survives an insert (R8); stored and live statistics of the insert-time
+pre-filter refer to one split of the vector (R9).  The f32 arithmetic of the insert pruning bound and the race itself (only
+its guard) are not decided.
 """
 import re
 
@@ -17,7 +19,9 @@ MANIFEST = {
             'each of the six canonical mutation sites of the engine, generation bump before removal in all three invalidators, '
             'conditional store (generation re-checked under the cache write lock, taken before the tier searches), k and scope '
             'guards on both hit paths, scope = hash(tenant index, namespace, filter), reverse-index pairing. Necessary conditions; '
-            'the f32 pruning bound of invalidate_for_insert and the interleavings are not decided. The insert-time invalidation bound compares the same distance scale as the cached results (unit analysis shared with C06.R5).',
+            'the f32 pruning bound of invalidate_for_insert and the interleavings are not decided. The insert-time invalidation bound compares the same distance scale as the cached results (unit analysis shared with C06.R5). '
+            'No conditional store on a path that recorded a tier failure, an open breaker or a refused worker permit (R7, flag values followed path-sensitively); under-full entries are '
+            'dropped on every insert (R8); every tail norm of the Cosine / InnerProduct pre-filter is taken over a split no later than the live prefix (R9).',
     'design_ref': 'DESIGN.md §4.7',
     'note': 'Trusted base: rustc MIR, must-effect summaries over the call graph, path-sensitive exploration with marked '
             'invalidation calls, lock-state dataflow.',
@@ -148,7 +152,7 @@ def _false_edges_of_returned_bool(f, c):
 
 
 def run(ctx, prog):
-    ctx.not_decided = ['numeric soundness of insert_can_affect_cached_boundary (prefix / tail-norm bound in f32)',
+    ctx.not_decided = ['numeric soundness of insert_can_affect_cached_boundary (prefix / tail-norm bound in f32; R9 decides only that both sides use one split of the vector)',
                        'the store/invalidate race itself — only its generation guard']
     eff = Effects(prog)
     eff.define('qc_clear', 'QueryHashCache::clear')
